@@ -78,7 +78,8 @@ ANS_SECTIONS = ['1040', 'w-2:0', 'w-2:1', '1099-int:0', 'nc_d-400', 'a', 'A', 'b
 ANS_KEYS = ['k', 'K', 'key', 'filing_status', 'box_1', 'number_w-2', 'first_name', 'x y', 'opt%', 'a=b', ' lead',
             '#h', '[q', 'q]', 'é']
 ANS_VALS = ['yes', 'no', '0', '1234.50', 'Single', 'Bob', 'Alice Q', ' yes', 'no ', '  12 Main St  ', '', '%', '100%',
-            '= x', 'a: b', '# c', '[s]', 'x]', '\tv', 'v\x0c', 'é', '123-45-6789']
+            '= x', 'a: b', '# c', '[s]', 'x]', '\tv', 'v\x0c', 'é', '123-45-6789', 'Apt #4', '12 Elm St #3', 'a ; b', ';x',
+            '#4B', 'x # y ; z']
 
 
 def gen_answers(rng, present_sections):
@@ -94,6 +95,10 @@ def gen_answers(rng, present_sections):
         v = rng.choice(ANS_VALS[:8]) if rng.random() < 0.7 else rng.choice(ANS_VALS)
         out.append((s, k, v))
     return out
+
+
+STORE_VIOLATIONS = []
+_PLAIN = set('abcdefghijklmnopqrstuvwxyzABCDEFGHIJKLMNOPQRSTUVWXYZ0123456789-_:')
 
 
 def store_case(rng, tmp):
@@ -145,6 +150,22 @@ def store_case(rng, tmp):
         again = hinputs.InputStore(path, specs)
         exp_rerun = ' '.join(['ok'] + [('T' if again.provides(FakeInput(s, k)) else 'F') for s, k, v in answers])
         keys.append('store:reread-ok')
+        # statement check (C13/C20): an answer typed for an input of a plainly named form reads back as typed (stripped)
+        last = {}
+        all_plain = all(a and set(a) <= _PLAIN and set(b) <= _PLAIN for a, b, _c in answers)
+        done = len(answers) if (stopped is None and all_plain) else 0
+        for s_, k_, v_ in answers[:done]:
+            last[(s_, k_.lower())] = v_
+        for (s_, k_), v_ in last.items():
+            if s_ and set(s_) <= _PLAIN and set(k_) <= _PLAIN and s_ != 'DEFAULT' and v_.strip() and '\n' not in v_ and '\r' not in v_:
+                try:
+                    got = again.config.get(s_, k_)
+                except Exception as e:  # noqa
+                    got = f'<{type(e).__name__}>'
+                if got != v_.strip():
+                    STORE_VIOLATIONS.append({'op': lines[0][:300], 'model': '-',
+                                             'real': f'the answer {v_!r} typed for {s_}.{k_} reads back from the written file as {got!r}'})
+                keys.append('store:value-readback')
     except Exception as e:  # noqa
         exp_rerun = 'err ' + I.err_name(e)
         keys.append('store:reread-' + I.err_name(e))
@@ -353,7 +374,7 @@ def solve_scenario(seed, idx, tmp, budget):
 FORM_NAMES = ['1040', '1040_s1', 'w-2:0', 'w-2:1', 'nc_d-400', 'a', 'A', '8889', 'habutax', 'DEFAULT', 'x y']
 LINE_NAMES = ['1', '1a', '2b', '25d', 'first_name', 'filing_status', 'A', 'a', 'Total', 'x y', 'k=v', '#n', '[b', 'é']
 STRINGS = ['', 'Bob', 'Alice Q', '12 Main St', ' padded ', 'two\nlines', 'a\n\nb', 'x\n', '100%', '%(x)s', '# hash', '; semi',
-           'a = b', 'é', 'l1\n l2', 'l1\n#l2', '[x]', 'tab\there']
+           'a = b', 'é', 'l1\n l2', 'l1\n#l2', '[x]', 'tab\there', 'Apt #4', '#4B', 'Teacher ; tutor', 'x # y']
 
 
 def gen_solution(rng):
@@ -419,11 +440,35 @@ def solution_case(rng, tmp):
     expect = [hx(text)]
     # what fill_pdfs + PDFFiller read, up to from_string
     try:
-        back = configparser.ConfigParser(interpolation=None)
-        with open(path) as f:
-            back.read_file(f)
-        y = back.getint('habutax', 'tax_year')
-        back.remove_section('habutax')
+        # the solution is read by the REAL `habutax.fill_pdfs` (its reader construction, year parsing, removal of the
+        # special section); only the PDFFiller it would build is replaced by a recorder
+        import types
+        captured = {}
+
+        class Capture:
+            def __init__(self, solution, forms, output, flatten=False):
+                captured['sol'] = solution
+
+            def fill(self):
+                pass
+
+        class AnyYear(dict):
+            def __missing__(self, k):
+                return []
+
+            def __getitem__(self, k):
+                captured['year'] = k
+                return dict.__getitem__(self, k) if k in self else []
+        orig_filler, orig_forms = habutax.pdf_filler.PDFFiller, habutax.forms.available_forms
+        try:
+            habutax.pdf_filler.PDFFiller = Capture
+            habutax.forms.available_forms = AnyYear(orig_forms)
+            habutax.fill_pdfs(types.SimpleNamespace(solution=path, output='x', flatten=False))
+        finally:
+            habutax.pdf_filler.PDFFiller = orig_filler
+            habutax.forms.available_forms = orig_forms
+        back = captured['sol']
+        y = captured['year']
         seen = []
 
         class Rec:
@@ -502,8 +547,12 @@ def run(seed, n, run_step, prefix=''):
             expect.append(e)
             owner.append(cases)
 
+    del STORE_VIOLATIONS[:]
     for i in range(n_store):
         add(*store_case(random.Random(f'{seed}/cli/store/{i}'), tmp))
+    for v in STORE_VIOLATIONS:
+        bump('store:PROPERTY-VIOLATION')
+        extra_disagreements.append(v)
     done, idx = 0, 0
     while done < n_solve:
         for case in solve_scenario(seed, idx, tmp, n_solve - done):
